@@ -117,7 +117,7 @@ def gen_case(rng, tier, i):
             "extra_coords": extra_coords, "axis": ax["name"], "from": frm, "to": rng.choice(tos), "dims": dims,
             "op": "cumsum" if (second and rng.random() < 0.4) else rng.choice(["diff", "interp", "min", "max", "cumsum"]),
             "keep": rng.random() < 0.5,
-            "input": rng.choice(["ds_coords", "none", "altered", "degenerate"]), "boundary": rng.choice(["fill", "extend", "periodic"]),
+            "input": rng.choice(["ds_coords", "none", "altered", "degenerate"]), "lazy": rng.random() < 0.2, "boundary": rng.choice(["fill", "extend", "periodic"]),
             "seed": rng.randrange(1 << 30)}
 
 
@@ -167,6 +167,8 @@ def eval_case(case, drv):
             lab[d] = (np.zeros(n_) if kind == 0 else np.array([(90.0 * i) % 360.0 for i in range(n_ - 1)] + [0.0][: n_ - (n_ - 1)])
                       if kind == 1 else np.full(n_, np.nan))
         da = da.assign_coords(lab)
+    if case.get("lazy"):
+        da = da.chunk()            # a lazily evaluated input (one chunk): labels and name are treated the same way
     ax = layout.axis(case["axis"])
     old, new = ax["coords"][case["from"]], ax["coords"][case["to"]]
     moves = [(old, new)]
